@@ -1,4 +1,5 @@
 """Per-property run plans. Each entry: f(tier, seed) -> dict(runs, rule, min_events, assumptions)."""
+import vplib
 from vplib import Run
 
 RT = ["vp_rt.c", "vp_ghost.c"]
@@ -426,6 +427,21 @@ def c09(tier, seed):
         k += 1
         runs.append(fb("h_sleep", "mon", "sleep", seed, k, thr, mode="stall", stall_point="TIMER_READ", stall_every=1, stall_us_lo=8000, stall_us_hi=30000,
                        trials=12 if q else 40, scenario=5, livelock_prop="C09"))
+    # timer expirations reported late (timer interrupt delayed, vCPU stalled): emulated at the system-call boundary by failing every
+    # 2nd / 3rd read(2) of each thread with EAGAIN (strace fault injection) - the ticks stay in the timerfd and a later read reports them
+    # all at once. A sleep registered against the lagging tick base must still last as long as requested.
+    extra_cov = {}
+    if vplib.strace_inject_available():
+        for thr, sc, when in ((1, 2, "2+2"), (2, 2, "3+3"), (2, 5, "2+2"), (4, 5, "3+3")) if q else ((1, 2, "2+2"), (1, 2, "3+3"), (2, 2, "2+2"), (2, 2, "3+3"), (2, 5, "2+2"),
+                                                                                                   (4, 5, "3+3"), (8, 5, "2+2"), (4, 0, "3+3"), (2, 1, "2+2")):
+            k += 1
+            r_ = fb("h_sleep", "mon", "sleep", seed, k, thr, mode="monitor", trials=4 if q else 16, scenario=sc, livelock_prop="C09")
+            r_.wrapper = ["strace", "-f", "-qq", "-o", "@LOG@", "-e", "trace=read", "-e", "inject=read:error=EAGAIN:when=" + when]
+            r_.tag = "late-ticks"
+            runs.append(r_)
+        extra_cov["late_tick_emulation"] = "strace fault injection on read(2) active in %d runs" % sum(1 for r in runs if r.tag == "late-ticks")
+    else:
+        extra_cov["late_tick_emulation"] = "skipped: strace/ptrace not available in this environment"
     for thr in ((2, 8) if q else (1, 4, 16)):
         k += 1
         runs.append(fb("h_sleep", "asan", "sleep", seed, k, thr, mode="jitter", trials=6 if q else 30, livelock_prop="C09"))
@@ -434,12 +450,13 @@ def c09(tier, seed):
     if not q:
         k += 1
         runs.append(fb("h_sleep", "mon", "sleep", seed, k, 4, mode="monitor", trials=6, scenario=4, sleep_seconds=1, livelock_prop="C09"))
-    return dict(runs=runs,
+    return dict(extra_cov=extra_cov, runs=runs,
                 rule="a case = one trial of one scenario: (0) 1..200 sleepers with durations {0,1us,999us,1ms,4.9ms,5ms,7ms,12ms,20ms} through "
                 "fiber_sleep/usleep/nanosleep next to a ticker, (1) a same-deadline cohort whose members exit right after waking (their stacks, "
                 "which hold the sleeper nodes, are reclaimed), (2) every kernel thread CPU-bound for 60-300 ms before usleep(20ms) (stale tick), "
                 "(3) every thread always busy with yielding fibers, (4) long sleeps, (5) 20..170 fibers repeating 0.2..4.9 ms sleeps (registrations at every "
-                "phase of the tick, with pollers delayed after consuming ticks). Oracles: monotonic elapsed >= requested (sound under load), "
+                "phase of the tick, with pollers delayed after consuming ticks); scenarios 2 and 5 again with timer expirations reported late "
+                "(every 2nd/3rd read(2) failed with EAGAIN by strace fault injection). Oracles: monotonic elapsed >= requested (sound under load), "
                 "one registration and one sleep wake-up per call (ghost), ticker progress on the same thread, ghost/ASan for the sleeper nodes, "
                 "quiescence/livelock for sleepers never resumed.",
                 min_events={"sleep_calls": 500, "sleep_same_tick_cohort_fibers": 10, "sleep_after_cpu_bound_phase": 1,
